@@ -102,6 +102,19 @@ def run(pid, tier, seed, scratch, t0):
         for k in plan.kani_groups(pid, tier):
             import kani_unit
             jobs.append(('kani', k, ex.submit(kani_unit.run_group, k, REPO, scratch.dir, tier, seed)))
+        if p.get('features_sweep'):
+            import features_unit
+            subsets = features_unit.all_subsets() if tier == 'thorough' else plan.C17_QUICK_SUBSETS
+            jobs.append(('frame', 'cfg-frame', ex.submit(run_cfg_frame)))
+            for sub in subsets:
+                tag = features_unit.tag_of(sub)
+                jobs.append(('build', tag, ex.submit(run_exports_unit, sub, scratch)))
+                import kani_unit
+                jobs.append(('kani', 'tables@' + tag, ex.submit(kani_unit.run_group, 'tables', REPO, scratch.dir, tier, seed, sub)))
+            # the parsers with the cfg-dependent category enum resolved for "eval_i64 off" (the only cfg that changes the text)
+            for st in ('f64', 'number', 'decimal', 'complex'):
+                feats = [f for f in features_unit.ALL if f != 'eval_i64']
+                jobs.append(('verus', st + '-parser@noi64', ex.submit(run_verus_variant, st + '-parser', feats, 'noi64', scratch)))
         for engine, u, fut in jobs:
             try:
                 results.append(fut.result())
@@ -208,10 +221,43 @@ def run(pid, tier, seed, scratch, t0):
     return 0
 
 
+def run_cfg_frame():
+    import features_unit
+    hits, bad = features_unit.cfg_frame(REPO)
+    fails = [dict(fn='cfg-frame', arm=None, kind='frame', text='%s:%d %s' % b, message='cfg outside lib.rs / operator_category.rs', rendered='', owners=['C17']) for b in bad]
+    return dict(unit='frame:cfg', base_unit='frame:cfg', backend='syntactic scan', cmd='grep cfg( over /repo/src',
+                obligations=[dict(name='S:c17/cfg-frame', fn='cfg-frame', arm=None, owners=['C17'], failures=fails,
+                                  function_label='src/lib.rs + src/utils/operator_category.rs (the only cfg-dependent items)',
+                                  contract='`cfg(` occurs only in src/lib.rs and src/utils/operator_category.rs: %d occurrences' % len(hits))],
+                assumptions=[], smt_total_s=0.0)
+
+
+def run_exports_unit(subset, scratch):
+    import features_unit
+    r = features_unit.run_exports(subset, REPO, scratch.dir)
+    fails = [] if r['ok'] else [dict(fn='exports', arm=None, kind='build', text='cargo build failed for features ' + r['tag'],
+                                     message='the crate does not build with, or does not export exactly, the selected items', rendered=r['output'], owners=['C17'])]
+    return dict(unit='build:' + r['tag'], base_unit='build:c17', backend='rustc (cargo build --offline)', cmd='cargo build --offline -q (generated probe crate, --no-default-features --features <subset>)',
+                obligations=[dict(name='B:c17/%s/exports' % r['tag'], fn='exports', arm=None, owners=['C17'], failures=fails,
+                                  function_label='src/lib.rs (cfg-gated modules and re-exports)',
+                                  contract='builds with exactly {%s}; exports exactly the selected eval_* (+ Number with eval_number, ParseError)' % r['tag'])],
+                assumptions=['cargo feature resolution'], smt_total_s=0.0,
+                extraction=dict(unit='build:' + r['tag'], answered_from_memo=r.get('from_cache'), wall_s=r.get('wall_s')))
+
+
+def run_verus_variant(unit, features, tag, scratch):
+    r = verus_unit.run_unit(unit, REPO, scratch.dir, features=features, rlimit=30, tag=tag)
+    return finish_verus(r)
+
+
 def run_verus(unit, scratch):
     spec = plan.VERUS_UNITS[unit]
     r = verus_unit.run_unit(spec['unit'], REPO, scratch.dir, features=spec.get('features'),
                             rlimit=spec.get('rlimit', 30), tag=spec.get('tag'))
+    return finish_verus(r)
+
+
+def finish_verus(r):
     r['backend'] = 'verus %s / z3' % (r.get('verus_version') or '')
     r['assumptions'] = ['[%s] %s' % (r['unit'], a) for a in verus_unit.scan_assumptions(r['file'])]
     m = r['meta']
